@@ -111,7 +111,7 @@ func runSpec(t *testing.T, p *world.PKI, sp spec) (o run.Outcome) {
 	if os.Getenv("C08_TIMING") != "" {
 		t0 := time.Now()
 		defer func() {
-			fmt.Fprintf(os.Stderr, "TIMING %s %.3fs injected=%d assoc=%d\n", sp.id(), time.Since(t0).Seconds(), o.Evals, o.Counters["associations_built"])
+			fmt.Fprintf(os.Stderr, "TIMING %s %.3fs injected=%d assoc=%d legit=%d accepted=%d stalled=%d\n", sp.id(), time.Since(t0).Seconds(), o.Evals, o.Counters["associations_built"], o.Counters["legit_aborts"], o.Counters["inputs_accepted_as_next_handshake_message"], o.Counters["read_loop_stopped_consuming"])
 		}()
 	}
 	if sp.fam == "probe" {
@@ -195,6 +195,6 @@ func TestC08(t *testing.T) {
 	run.Main(t, "C08", cases, map[string]any{
 		"variants": nv, "variants_with_every_point": nfull, "families": strings.Join(families, ","), "flood_length": floodN,
 		"tier_bounds": "quick: byte strings <=1 all + structured length 2; pairwise-complete + reduced full products for record/handshake headers; truncation/corruption subsets; contexts whose last delivery did not reach the victim skipped. thorough: all 65,793 byte strings, full header products, every truncation, every corruption, every context",
-		"limits": fmt.Sprintf("queued<=%d fragment buffer<=%d bytes/%d fragments; handshake cache<=default-run maximum+%d", limitQueued, limitFragBytes, limitFragCount, cacheSlack),
+		"limits":      fmt.Sprintf("queued<=%d fragment buffer<=%d bytes/%d fragments; handshake cache<=default-run maximum+%d", limitQueued, limitFragBytes, limitFragCount, cacheSlack),
 	})
 }
